@@ -109,6 +109,9 @@ pub struct FsState {
     pub op_counts: BTreeMap<&'static str, u64>,
     /// lower bound on accepted bytes per write (buggify): `None` = tokio's 2 MiB
     pub max_write: Option<usize>,
+    /// after a random fault: this many operations of the faulted classes are left alone, so that the
+    /// code's own repair of the failed operation is not hit by a second, independent fault
+    pub cooldown: u32,
 }
 
 fn op_code(op: FsOp) -> u8 {
@@ -289,7 +292,9 @@ impl SimRuntime for SimInner {
                 .push((class, op, nth, planned.fault.clone()));
             return planned.fault;
         }
-        if fs.random_rate > 0.0 && fs.random_classes.contains(&class) {
+        if fs.random_rate > 0.0 && fs.random_classes.contains(&class) && fs.cooldown > 0 {
+            fs.cooldown -= 1;
+        } else if fs.random_rate > 0.0 && fs.random_classes.contains(&class) {
             let mut rng = self.fault_rng.borrow_mut();
             if rng.chance(fs.random_rate) {
                 let fault = match op {
@@ -308,6 +313,7 @@ impl SimRuntime for SimInner {
                 };
                 if fault != FsFault::None {
                     fs.fired.push((class, op, nth, fault.clone()));
+                    fs.cooldown = 8;
                     return fault;
                 }
             }
